@@ -285,6 +285,53 @@ def setGeometry (t : Tree) (win : Id) (geom : Rect) : Res (Tree × Bool) := do
   let w ← get t win
   if w.rect ≠ geom then pure (set t win { w with rect := geom }, true) else pure (t, false)
 
+/-! ### reference counting and destruction -/
+
+mutual
+/-- `tickit_window_unref`. `onDestroy` stands for `tickit_bindings_unbind_and_destroy` (the engine decides
+    what DESTROY handlers do). -/
+def unref (onDestroy : Tree → Id → Res Tree) : Nat → Tree → Id → Res Tree
+  | 0, _, _ => .ub "destroy recursion too deep"
+  | fuel + 1, t, win => do
+    let w ← get t win
+    if w.refcount < 1 then .ub s!"tickit_window_unref: invalid refcount on window {win} (abort)"
+    else
+      let t := set t win { w with refcount := w.refcount - 1 }
+      if w.refcount - 1 = 0 then destroy onDestroy fuel t win else pure t
+
+/-- `tickit_window_destroy`. -/
+def destroy (onDestroy : Tree → Id → Res Tree) : Nat → Tree → Id → Res Tree
+  | 0, _, _ => .ub "destroy recursion too deep"
+  | fuel + 1, t, win => do
+    let t ← onDestroy t win
+    let w ← get t win
+    -- for(child = first_child; child; ) { next = child->next; unref(child); child->parent = NULL; child = next; }
+    let t ← destroyChildren onDestroy fuel t w.children
+    let w ← get t win
+    let t ← if w.parent.isSome then purgeHierarchyChanges t (fuel + 1) win else pure t
+    let w ← get t win
+    let t ← if !w.isClosed then close t (fuel + 1) win else pure t
+    let w ← get t win
+    pure (set t win { w with freed := true })
+
+/-- The children loop of `tickit_window_destroy`: the write `child->parent = NULL` happens *after* the
+    unref, i.e. into freed memory when that was the child's last reference. -/
+def destroyChildren (onDestroy : Tree → Id → Res Tree) : Nat → Tree → List Id → Res Tree
+  | _, t, [] => pure t
+  | 0, _, _ :: _ => .ub "destroy recursion too deep"
+  | fuel + 1, t, c :: cs => do
+    let t ← unref onDestroy fuel t c
+    match t.wins[c]? with
+    | none => .ub s!"unknown window {c}"
+    | some cw =>
+      if cw.freed then .ub s!"tickit_window_destroy: child->parent = NULL written to freed child {c}"
+      else destroyChildren onDestroy fuel (set t c { cw with parent := none }) cs
+end
+
+/-- `tickit_window_ref`. -/
+def ref (t : Tree) (win : Id) : Res Tree :=
+  modify t win (fun w => { w with refcount := w.refcount + 1 })
+
 /-! ### specification vocabulary: the painter's model -/
 
 /-- The chain of ancestors of a window, nearest first (fuel-bounded). -/
